@@ -199,20 +199,21 @@ NOT_YET = {}
 ADDED = {
     'C01': 'A program whose result differs between the reused and a brand-new Interpreter is a violation (one Interpreter evaluates all build files of a project); every program has a wall-clock and memory budget. Family X6: one statement executed several times (loop, twice, nested loop) with variables that change in between.',
     'C02': 'Gaps part: 10 kinds of trivia in every gap and pair of gaps of 10 skeleton statements. Pairs part: every ordered pair of 14 texts parsed in one brand-new interpreter, the second verdict compared with the text parsed alone.',
-    'C03': 'test(workdir:); every sequence of <= 3 add_project_(link_)arguments / add_global_(link_)arguments calls over the language sets {c}, {cpp}, {c, cpp}: which language receives which argument, compile and link. Pairs of wrapped commands whose argument lists differ only in where the boundaries fall; generator extra_args positions.',
-    'C04': 'A unity family, and a tests family (6 ways a test can refer to something built x program/args/nested args/depends, tests and benchmarks) for meson-test-prereq. One generator list shared by consumer sequences of length 2-3; a project mixing statements above and below the response-file threshold; output clashes in first/middle/last position of a multi-output statement.',
-    'C05': 'generator()-made headers and 59 link chains of 3-5 targets (header two or three link levels away from its user); generators with depends: and several inputs; a dependency listed after its own partial_dependency().',
+    'C03': 'test(workdir:); every sequence of <= 3 add_project_(link_)arguments / add_global_(link_)arguments calls over the language sets {c}, {cpp}, {c, cpp}: which language receives which argument, compile and link. Pairs of wrapped commands whose argument lists differ only in where the boundaries fall; generator extra_args positions; every test again under a test setup with a transparent exe_wrapper.',
+    'C04': 'A unity family, and a tests family (6 ways a test can refer to something built x program/args/nested args/depends, tests and benchmarks) for meson-test-prereq. One generator list shared by consumer sequences of length 2-3; a project mixing statements above and below the response-file threshold; output clashes in first/middle/last position of a multi-output statement; an optional subproject that fails after declaring tests / targets / install rules (nothing of it may remain).',
+    'C05': 'generator()-made headers and 59 link chains of 3-5 targets (header two or three link levels away from its user); generators with depends: and several inputs; a dependency listed after its own partial_dependency(); precompiled headers that include generated headers.',
     'C06': 'The RICH project runs compiler checks (supported arguments, has_header, sizeof) whose results feed config.h and project arguments; a pch target with five generated headers.',
-    'C07': 'A yielding option against a parent option of every other kind. Part R: 49 re-declarations of an option (integer bounds, combo / array choices, type) with a stored value, get_option and configure -D afterwards. The prefix decoy with every source of the top-level prefix.',
-    'C08': 'Commands that make an override equal to the value it overrides; an integer option whose bounds are edited; the empty string as a value.',
-    'C09': 'A history whose values come from a native file.',
-    'C10': 'Injected I/O answers during the overlay copy (n-th copy fails) and for the patch program (cannot start); the following run without fault must prepare the subproject completely. Part (d): two wraps of one configuration naming the same archive file, which matches only the first wrap\'s hash.',
+    'C07': 'A yielding option against a parent option of every other kind. Part R: 49 re-declarations of an option (integer bounds, combo / array choices, type) with a stored value, get_option and configure -D afterwards. The prefix decoy with every source of the top-level prefix. Part P: 48 command histories pinning a subproject value (also equal to the inherited one) before the parent value changes.',
+    'C08': 'Commands that make an override equal to the value it overrides; an integer option whose bounds are edited; the empty string as a value; setup --wipe together with -D.',
+    'C09': 'A history whose values come from a native file; after every recovery the next commands (configure -D, reconfigure, thorough: wipe) must work and keep the values.',
+    'C10': 'Injected I/O answers during the overlay copy (n-th copy fails) and for the patch program (cannot start); the following run without fault must prepare the subproject completely. Part (d): two wraps of one configuration naming the same archive file, which matches only the first wrap\'s hash. History part: the decision table again after the build directory was first configured under another (wrap_mode, force_fallback_for).',
     'C11': 'install_emptydir with sticky / setuid modes; an explicit install_mode without owner write bit; source versions 0.3 s apart.',
     'C12': '--slice over every subset of 8 tests, 3 of them non-parallel; fractional --timeout-multiplier values.',
     'C13': 'An absolute library path through append_direct/extend_direct, alone and in two-element batches with every other argument; bare options with a separate operand (-isystem DIR, -D FOO).',
-    'C14': '30 fragments (non-ASCII names, #cmakedefine with a ${} tail); the file slice renders each data set over the output of the previous one.',
-    'C15': 'The same comparisons after setup --reconfigure (twice); an install project with every installable kind x 8 spellings of the install directory; yielding options given their own value.',
-    'C16': 'indent_by = \'\'; end_of_line taken from .editorconfig in the CLI part.',
+    'C14': '30 fragments (non-ASCII names, #cmakedefine with a ${} tail); the file slice renders each data set over the output of the previous one, and in three more encodings.',
+    'C15': 'The same comparisons after setup --reconfigure (twice); an install project with every installable kind x 8 spellings of the install directory; yielding options given their own value; files read through fs / keyval before and after a subproject, compared with the REGENERATE_BUILD dependencies.',
+    'C16': 'indent_by = \'\'; end_of_line taken from .editorconfig in the CLI part; several files in one invocation (list and --recursive).',
+    'C19': 'version_check_to_range must leave its start argument unchanged.',
     'C17': 'Layer-B project line with entries that merely contain an addressed name; two source arrays on one line; info / edit / info in one run.',
 }
 
